@@ -737,7 +737,19 @@ class Unit:
         for idx, (ctext, meta) in enumerate(self.chunks):
             if meta["kind"] == "canary" and not canary:
                 continue
-            chunks.append((ctext, meta))
+            if canary and meta.get("gid") and meta.get("canary_ok"):
+                # canary file: the ORIGINAL is not verified again (it was, in the main file): signature + contract are kept as an
+                # assumed stub so that callers see exactly its contract; the canary copy below carries the real body
+                if meta["kind"] == "header":
+                    chunks.append((re.sub(r"^(\s*)", r"\1#[verifier::external_body]\n\1", re.sub(r"#\[verifier::rlimit\(\d+\)\]\s*", "", ctext), count=1), meta))
+                elif meta["kind"] == "contract":
+                    chunks.append((ctext, meta))
+                else:
+                    nxt0 = self.chunks[idx + 1][1] if idx + 1 < len(self.chunks) else {}
+                    if nxt0.get("gid") != meta["gid"]:
+                        chunks.append(("    { unimplemented!() }\n\n", meta))
+            else:
+                chunks.append((ctext, meta))
             if canary and meta.get("gid") and meta.get("canary_ok"):
                 group.append((ctext, meta))
                 nxt = self.chunks[idx + 1][1] if idx + 1 < len(self.chunks) else {}
@@ -753,6 +765,10 @@ class Unit:
                         cm = dict(gmeta, key="canary:" + gmeta["key"])
                         if gmeta["kind"] == "header":
                             gtext = re.sub(r"\bfn\s+%s\b" % re.escape(gmeta["fname"]), "fn canary__" + gmeta["fname"], gtext, count=1)
+                            # a canary only has to be NOT provable: a small resource limit is enough (a refutation and a
+                            # give-up both count; a vacuous contract verifies instantly whatever the limit)
+                            gtext = re.sub(r"#\[verifier::rlimit\(\d+\)\]\s*", "", gtext)
+                            gtext = re.sub(r"^(\s*)", r"\1#[verifier::rlimit(3)]\n\1", gtext, count=1)
                         chunks.append((gtext, cm))
                     group = []
         text = "".join(c[0] for c in chunks)
